@@ -19,9 +19,19 @@ func runC36(c *Ctx) {
 	fn := c.Fn("C36.O1", "p.(*DB).ingest")
 	if fn != nil {
 		alloc := CallTo("p.(*commitPipeline).AllocateSeqNum")
+		errCell := "err"
+		for _, in := range instrs(fn, CallTo("p.(*DB).ingestAttachRemote")) {
+			if call := in.(*ssa.Call); call.Referrers() != nil {
+				for _, r := range *call.Referrers() {
+					if st, ok := r.(*ssa.Store); ok && isCell(st.Addr) {
+						errCell = pathOf(st.Addr)
+					}
+				}
+			}
+		}
 		fl := NewFlow(c.P).
 			After("did:AllocateSeqNum", alloc).
-			Edge("err-nil", ZeroGuard("err")).
+			Edge("err-nil", ZeroGuard(errCell)).
 			KillAfter("err-nil", alloc).
 			Derive("ingest-succeeded", []string{"did:AllocateSeqNum", "err-nil"}).
 			Ok("ok:link", CallTo("p.ingestLinkLocal")).
@@ -128,14 +138,14 @@ func runC36(c *Ctx) {
 func runC37(c *Ctx) {
 	if fn := c.Fn("C37.O1", "p.(*EventuallyFileOnlySnapshot).transitionToFileOnlySnapshot"); fn != nil {
 		vers := c.Field("C37.O1", "p.EventuallyFileOnlySnapshot.mu.vers")
-		fl := NewFlow(c.P).After("held:es.mu", MethodOn("Lock", "es.mu")).KillAfter("held:es.mu", MethodOn("Unlock", "es.mu"))
+		fl := NewFlow(c.P).After("held:es.mu", MethodOn("Lock", "recv.mu")).KillAfter("held:es.mu", MethodOn("Unlock", "recv.mu"))
 		fl.MaxDepth = 0
 		res := c.Chain("C37.O1", fn, fl,
 			Step{Name: "store es.mu.vers", M: StoreTo(vers)},
 			Step{Name: "oldSnap.closeLocked", M: CallTo("p.(*Snapshot).closeLocked")},
 		)
 		c.Require("C37.O1", res, StoreTo(vers), "version published under the EFOS mutex", []string{"held:es.mu"})
-		c.ParamDisposed(PairSpec{Rule: "C04.P3", What: "version reference handed to transitionToFileOnlySnapshot is stored or released on every path", Release: []string{"Unref", "UnrefLocked"}}, fn, "vers")
+		c.ParamDisposed(PairSpec{Rule: "C04.P3", What: "version reference handed to transitionToFileOnlySnapshot is stored or released on every path", Release: []string{"Unref", "UnrefLocked"}}, fn, ParamName(fn, 1))
 	}
 	if fn := c.Fn("C37.O2", "p.(*DB).flush1"); fn != nil {
 		c.Chain("C37.O2", fn, nil,
